@@ -242,6 +242,65 @@ theorem decodeBlock_inDomain (cfg : Cfg) (p : Param α) (block : List (Feat α))
         exact ⟨by simp [Domain.numFeasible, hs], by rw [← hs]; exact List.length_pos_iff.mpr hdom⟩
     exact decodeIndex_inDomain lg ex fin cfg p n block hs key.1 key.2 hg
 
+/-- whenever the decoder returns a value at all, the block satisfied the hypotheses … -/
+theorem goodBlock_of_some (cfg : Cfg) (p : Param α) (block : List (Feat α)) (v : PVal α)
+    (h : decodeBlock (fieldOps lg ex fin) cfg p block = .ok (some v)) :
+    GoodBlock (fieldOps lg ex fin) cfg p block := by
+  unfold decodeBlock at h
+  unfold GoodBlock
+  cases hs : specOf (fieldOps lg ex fin) cfg p with
+  | continuous low high =>
+    rw [hs] at h
+    simp only at h ⊢
+    split at h
+    · cases h
+    · split at h
+      · rename_i y
+        refine ⟨y, rfl, ?_⟩
+        unfold toParameterValue at h
+        by_cases hf : fin (unscale (fieldOps lg ex fin) cfg (branch (fieldOps lg ex fin) cfg.scale low high p.scale) low high y) = true
+        · exact hf
+        · simp only [fo_finite, hf, Bool.not_false, if_true, Except.ok.injEq] at h
+          cases h
+      · cases h
+  | index n =>
+    rw [hs] at h
+    simp only at h ⊢
+    by_cases hoh : cfg.onehot = true
+    · rw [if_pos hoh] at h ⊢
+      split at h
+      · cases h
+      · rename_i xs hxs
+        split at h
+        · cases h
+        · rename_i hlen
+          exact ⟨xs, hxs, by simpa using hlen⟩
+    · rw [if_neg hoh] at h ⊢
+      split at h
+      · rename_i i
+        refine ⟨i, rfl, ?_⟩
+        by_cases h1 : (n : Int) ≤ i
+        · rw [if_pos h1] at h; cases h
+        · rw [if_neg h1] at h
+          by_cases h2 : 0 ≤ i
+          · omega
+          · rw [if_neg h2] at h
+            by_cases h3 : -(n : Int) ≤ i
+            · omega
+            · rw [if_neg h3] at h; cases h
+      · cases h
+
+/-- … hence a decoded value is never outside the domain: the decoder either returns a member
+of the domain, or drops the parameter / raises (no third outcome) -/
+theorem decodeBlock_some_inDomain (cfg : Cfg) (p : Param α) (block : List (Feat α)) (v : PVal α)
+    (hv : ValidParam (fieldOps lg ex fin) cfg p)
+    (h : decodeBlock (fieldOps lg ex fin) cfg p block = .ok (some v)) :
+    inDomain (fieldOps lg ex fin) p.dom v = true := by
+  obtain ⟨w, hw1, hw2⟩ := decodeBlock_inDomain lg ex fin cfg p block hv (goodBlock_of_some lg ex fin cfg p block v h)
+  rw [h] at hw1
+  simp only [Except.ok.injEq, Option.some.injEq] at hw1
+  rw [hw1]; exact hw2
+
 end
 
 end VizierModel.Codec
